@@ -804,3 +804,25 @@ pub fn preorder<'a>(prog: &'a [Stmt]) -> Vec<&'a Stmt> {
     walk(prog, &mut out);
     out
 }
+
+impl Rendered {
+    /// Two statements on one line: may the line break before terminal `i` (a statement start) become a blank
+    /// without changing what the grammar reads?
+    pub fn joinable(&self, i: usize) -> bool {
+            let r = self;
+        let t = &r.terms[i];
+        if !(t.slot == Slot::Mws && t.sep == "\n" && i > 0 && r.stmts.iter().any(|e| e.first == i)) {
+            return false;
+        }
+        // (a label directly followed by `{` on the same line would become a named block: not a layout change)
+        let prev_is_label_colon = r.terms[i - 1].text == ":";
+        // the line break IS the grammar's separator in two places, so removing it there is not a
+        // layout change: after an instruction without operand (`asl` + `asl $10` would read the
+        // second mnemonic as the first one's operand), and before a statement that starts with an
+        // operator character (`* = $1000` would continue the previous expression)
+        let prev_is_bare_mnemonic =
+            r.terms[i - 1].kind == Kind::Mnemonic && r.stmts.iter().any(|e| e.first == i - 1 && e.end == i);
+        let starts_with_operator = matches!(t.kind, Kind::Op) || t.text.starts_with('*');
+        !(prev_is_label_colon && t.text == "{") && !prev_is_bare_mnemonic && !starts_with_operator
+    }
+}
